@@ -69,7 +69,12 @@ Proof.
     cbn [snd] in Hv. rewrite (Hv Hf1), (IHt Hk Hf2). reflexivity.
 Qed.
 
-(** * A nil delta *)
+(** * A nil delta (with the index lists of diff.computeReorderIndices: [guide = None]) *)
+Hypothesis Hguide : @guide A O = None.
+
+Lemma vchoose_default (o n : list val) : vchoose o n = vcompute_reorder_indices o n.
+Proof. unfold vchoose. rewrite Hguide. reflexivity. Qed.
+
 Section Nil.
 Variable strict : bool.
 Notation wfs := (vwf_gen strict).
@@ -119,7 +124,7 @@ Proof.
   induction new as [| a | l IH | l IH] using val_ind'; intros old Hwo Hwn Hj.
   - inversion Hj; subst. reflexivity.
   - inversion Hj; subst. cbn [vdiff veqb]. rewrite (aeqb_refl L). reflexivity.
-  - inversion Hj as [| |o ? Hf|]; subst. rewrite vdiff_arr. unfold vdiff_array, vcompute_reorder_indices.
+  - inversion Hj as [| |o ? Hf|]; subst. rewrite vdiff_arr. unfold vdiff_array. rewrite vchoose_default. unfold vcompute_reorder_indices.
     pose proof (vwf_arr_inv strict o Hwo) as Hwo'. pose proof (vwf_arr_inv strict l Hwn) as Hwn'.
     assert (Hkeys : map vreorder_key o = map vreorder_key l).
     { clear IH Hj Hwo Hwn. induction Hf as [|x y o' l' Hxy Hf' IHf]; [reflexivity|].
@@ -176,8 +181,8 @@ Proof.
   - destruct old as [| b | |]; try discriminate. cbn [vdiff veqb] in Hd.
     destruct (aeqb b a) eqn:E; [|discriminate]. apply (aeqb_eq O L) in E. subst. constructor.
   - destruct old as [| | o |]; try discriminate. rewrite vdiff_arr in Hd. unfold vdiff_array in Hd.
-    set (idx := vcompute_reorder_indices o l) in *.
-    assert (Hlen : List.length idx = List.length l) by apply vreorder_indices_length.
+    set (idx := vchoose o l) in *.
+    assert (Hlen : List.length idx = List.length l) by apply vchoose_length.
     apply vfinish_nil_iff in Hd. apply app_eq_nil in Hd as [E1 E2].
     destruct (negb (Nat.eqb (List.length o) (List.length idx)) || negb (order_is_identity 0 idx)) eqn:Eoc; [discriminate|].
     apply orb_false_iff in Eoc as [H1 H2]. apply negb_false_iff in H1. apply negb_false_iff in H2. apply Nat.eqb_eq in H1.
